@@ -449,6 +449,8 @@ def coq_trace(run, spec, params, with_ctx=True):
             out.append("THeal")
         elif kind == "ROUND" and x[0] == "H":
             out.append("TRoundH")
+    # the run ended healed and quiet (monitors): the model's final state must be the Steady fixpoint of C01_steady_round
+    out.append("TSteady")
     return out
 
 
